@@ -64,7 +64,7 @@ def expected_descriptions(text):
     return descs
 
 
-COMMENTS = ["# note", "#", "#   spaced out   ", "  # indented", "# @@", "#-foo()", "#+bar()"]
+COMMENTS = ["# note", "#", "#   spaced out   ", "  # indented", "# @@", "#-foo()", "#+bar()", "\t# tab-indented", " \t # mixed indentation", "\t\t#"]
 
 
 def t_comments(rng, chs):
@@ -98,6 +98,9 @@ def t_blank(rng, chs):
 
 
 def t_name(rng, chs):
+    if len(chs) > 1 and rng.random() < 0.4:
+        # names are free: every change of the file under ONE name
+        return [dict(ch, header="@ same @") for ch in chs]
     return [dict(ch, header=rng.choice(["@ c%d @", "@c%d@", "@   change_%d @", "@ X%d   @"]) % k) for k, ch in enumerate(chs)]
 
 
